@@ -18,8 +18,12 @@ RULE = ('(also: one selector object applied to every length in turn, ascending t
 ASSUMPTIONS = ['Slice.last()/Sample.last() are not in the statement (pinned by the suite) and are exercised only through C11',
                'a step <= 0 in an option string is neither required to be accepted nor rejected']
 
-TOKENS_Q = ['', '1', '-2', '0', 'None', ' 3 ', 'x', '1.5', '+4', 'None7', '6None4', 'NoneNone', 'N', 'on', 'one', 'e', 'none', 'NONE', ' ', '10', '1 0', 'No ne']      # the last two: white space inside a part (after the text it collapses to)   # 'N' .. 'e': the word None run together with other text
+TOKENS_Q = ['', '1', '-2', '-1', '0', 'None', ' 3 ', 'x', '1.5', '+4', 'None7', '6None4', 'NoneNone', 'N', 'on', 'one', 'e', 'none', 'NONE', ' ', '10', '1 0', 'No ne']      # the last two: white space inside a part (after the text it collapses to)   # 'N' .. 'e': the word None run together with other text
 TOKENS_T = TOKENS_Q + ['12', 'nOnE', ' None ']
+
+
+# sample sizes around 2^8, 2^16, 2^17 and beyond (a well has hundreds of thousands of frames), over frame counts a little and a lot larger
+BIG_SAMPLES = [255, 256, 257, 65535, 65536, 65537, 100000, 131071, 131072, 131073, 200000, 400000]
 
 
 def _N(tier):
@@ -34,6 +38,7 @@ def shards(tier):
     toks = TOKENS_Q if tier == 'quick' else TOKENS_T
     out += [{'kind': 'opt', 'first': t} for t in toks]
     out += [{'kind': 'ctor'}]
+    out += [{'kind': 'sample_big', 'k': k} for k in BIG_SAMPLES]
     return out
 
 
@@ -91,6 +96,30 @@ def sample_ok(ind, k, n):
     if gaps and max(gaps) - min(gaps) > 1:
         return 'gaps differ by more than one: %r' % gaps
     return None
+
+
+def check_sample_big(k, n):
+    """The core of check_sample for sizes where the quadratic interleaving checks are out of reach (messages without the lists)."""
+    from TotalDepth.common import Slice
+    bad = []
+    ind = None
+    try:
+        s = Slice.Sample(k)
+        ind = s.indices(n)
+        gen = list(s.gen_indices(n))
+        cnt = s.count(n)
+        why = sample_ok(ind, k, n)
+        if why:
+            bad.append(('sample_indices', 'Sample(%d).indices(%d) (%d indices, last %r): %s' % (k, n, len(ind), ind[-1:], why[:200])))
+        if gen != ind:
+            bad.append(('sample_gen', 'Sample(%d): gen_indices(%d) gives %d indices, indices() %d' % (k, n, len(gen), len(ind))))
+        if cnt != len(ind) or cnt != min(k, n):
+            bad.append(('sample_count', 'count(%d)=%r, len(indices)=%d, min(k,n)=%d' % (n, cnt, len(ind), min(k, n))))
+        if ind and s.first(n) != ind[0]:
+            bad.append(('sample_first', 'first(%d)=%r but indices start %r' % (n, s.first(n), ind[0])))
+    except Exception as err:  # noqa
+        bad.append(('sample_raise', '%s: %s' % (type(err).__name__, err)))
+    return bad, ind
 
 
 def check_sample(k, n, obj=None):
@@ -266,6 +295,14 @@ def run_shard(shard, tier):
             res.case(('shared', k, i), nontrivial=True, outcome=tuple(ind or ()))
             for kind, msg in bad:
                 res.violate({'kind': kind + '_after_other_lengths'}, case, 'one Sample(%d) object after lengths %r: %s' % (k, lengths[max(0, i - 3):i], msg))
+    elif shard['kind'] == 'sample_big':
+        k = shard['k']
+        for n in (k - 1, k, k + 1, k + 2, k + k // 2 + 1, 2 * k - 1, 2 * k + 1, 3 * k + 7):
+            bad, ind = check_sample_big(k, n)
+            case = {'kind': 'sample_big', 'k': k, 'n': n}
+            res.case((k, n), nontrivial=True, outcome=(len(ind or ()), tuple((ind or ())[-2:])))
+            for kind, msg in bad:
+                res.violate({'kind': kind, 'big': True}, case, msg)
     elif shard['kind'] == 'slice_hist':
         from TotalDepth.common import Slice
         rng = [None] + list(range(-N, N + 1))
@@ -314,6 +351,9 @@ def replay(case):
             for n in case['history']:
                 check_slice(n, case['start'], case['stop'], case['step'], obj)
         bad, _ = check_slice(case['n'], case['start'], case['stop'], case['step'], obj)
+    elif k == 'sample_big':
+        bad, _ = check_sample_big(case['k'], case['n'])
+        return [{'sig': {'kind': kind, 'big': True}, 'case': case, 'msg': msg} for kind, msg in bad]
     elif k == 'sample':
         obj = None
         if 'history' in case:
